@@ -116,6 +116,9 @@ def gen_request(rng, tag, version, tier="quick", body_sizes=None, methods=None):
             req["framing"] = rng.choice(["cl", "chunked"]) if version == "1.1" else "cl"
         if version == "1.0" and req["framing"] == "chunked":
             req["framing"] = "cl"
+        if version == "1.1" and size and rng.random() < 0.12:
+            # the server interposes "100 Continue" once the application asks for the body
+            req["headers"] = list(req["headers"]) + [(rng.choice([b"Expect", b"expect"]), rng.choice([b"100-continue", b"100-Continue"]))]
         req["chunks"] = gen_chunks(rng, size, cap=65536 * 2)
         req["chunk_ext"] = rng.choice([b"", b"", b";ext=1", b";a;b=\"q\""])
         req["ows"] = [rng.choice([b"", b" ", b"  ", b"\t"]) for _ in req["headers"]]
